@@ -2590,6 +2590,18 @@ impl<Front: SocketHandler> ConnectionH2<Front> {
             }
             (H2State::ClientSettings, Position::Server) => {
                 let i = kawa.storage.data();
+                // RFC 9113 §6.5: a SETTINGS frame whose length is not a
+                // multiple of 6 octets is a FRAME_SIZE_ERROR. This frame does
+                // not go through `parser::frame_body`, which checks it for
+                // every later SETTINGS frame.
+                if i.len() % parser::SETTINGS_ENTRY_SIZE as usize != 0 {
+                    error!(
+                        "{} SETTINGS frame of the client preface has an invalid length {}",
+                        log_context!(self),
+                        i.len()
+                    );
+                    return self.goaway(H2Error::FrameSizeError);
+                }
                 let settings = match parser::settings_frame(
                     i,
                     &FrameHeader {
